@@ -429,6 +429,7 @@ func RunRandomPar(r *hx.Rand, p Profile, par int) (*Exec, *Monitor) {
 func RunTwin(serial *Exec, parallelism int, compare bool) (par *Exec, mon *Monitor, findings []Finding) {
 	par = NewExecPar(serial.MaxHeight, parallelism)
 	mon = NewMonitor(par)
+	heldDiverged := map[int]bool{}
 	for i, op := range serial.Ops {
 		if op.K == "Stabilize" {
 			op.K = "ParStabilize"
@@ -456,8 +457,11 @@ func RunTwin(serial *Exec, parallelism int, compare bool) (par *Exec, mon *Monit
 		if s.Crashed {
 			break
 		}
-		if fmt.Sprint(s.ObsVals) != fmt.Sprint(ref.ObsVals) {
+		if (op.K == "ParStabilize" || op.K == "StabilizeCancelled") && fmt.Sprint(s.ObsVals) != fmt.Sprint(ref.ObsVals) {
+			// after a pass: between passes the observer of a stale node shows what the node held
+			// when it last left the graph, which the property does not speak of
 			differ("observer values")
+			findings[len(findings)-1].What += fmt.Sprintf(" (parallel %v, serial %v)", s.ObsVals, ref.ObsVals)
 		}
 		if s.NumNodes != ref.NumNodes || len(s.Reg) != len(ref.Reg) {
 			differ("the number of registered nodes")
@@ -485,16 +489,95 @@ func RunTwin(serial *Exec, parallelism int, compare bool) (par *Exec, mon *Monit
 		}
 		v1, u1 := top(par, s)
 		v2, u2 := top(serial, ref)
-		if fmt.Sprint(v1) != fmt.Sprint(v2) {
-			differ("node values")
+		isPass := op.K == "ParStabilize" || op.K == "StabilizeCancelled"
+		if isPass && fmt.Sprint(v1) != fmt.Sprint(v2) {
+			// between passes a stale node shows what it held when it last left the graph, which the
+			// property does not speak of; after a pass every registered node has been brought up to date
+			only := len(v1) == len(v2)
+			for k := range v1 {
+				if only && v1[k] != v2[k] && !(v1[k][0] == v2[k][0] && heldDiverged[v1[k][0]]) {
+					only = false
+				}
+			}
+			if only {
+				differ("node-values@node-dropped-while-stale")
+			} else {
+				differ("node values")
+			}
+			findings[len(findings)-1].What += fmt.Sprintf(" (parallel %v, serial %v)", v1, v2)
+		}
+		// a node that a bind drops in the pass in which it is stale, sitting at the height of the
+		// bind's lhs-change: serially it recomputes first when it was queued ahead of the bind, in
+		// parallel the structural nodes of a block go first and it never runs. What it holds while
+		// out of the graph then differs, and so does whether it reports an update when it returns.
+		ran := func(sm Sample) map[int]bool {
+			r := map[int]bool{}
+			for _, ev := range sm.Raw {
+				if ev.K == "EvInvoked" || ev.K == "EvCutoff" {
+					r[ev.N] = true
+				}
+			}
+			return r
+		}
+		r1, r2 := ran(s), ran(ref)
+		for _, ev := range s.Raw {
+			if ev.K == "EvUnnec" && r1[ev.N] != r2[ev.N] {
+				heldDiverged[ev.N] = true
+			}
 		}
 		if fmt.Sprint(u1) != fmt.Sprint(u2) {
-			differ("the set of nodes reported as updated")
+			only := true
+			in := func(l []int, x int) bool {
+				for _, y := range l {
+					if y == x {
+						return true
+					}
+				}
+				return false
+			}
+			// a node dropped and picked up again within the pass: serially it may have recomputed
+			// before it was dropped and then reports no update (the recorded C13 finding)
+			relinked := map[int]bool{}
+			for _, sm := range []Sample{s, ref} {
+				un := map[int]bool{}
+				for _, ev := range sm.Raw {
+					if ev.K == "EvUnnec" {
+						un[ev.N] = true
+					}
+					if ev.K == "EvNec" && un[ev.N] {
+						relinked[ev.N] = true
+					}
+				}
+			}
+			onlyRelinked := true
+			for _, x := range append(append([]int(nil), u1...), u2...) {
+				if in(u1, x) != in(u2, x) && !heldDiverged[x] {
+					only = false
+				}
+				if in(u1, x) != in(u2, x) && !relinked[x] {
+					onlyRelinked = false
+				}
+			}
+			if onlyRelinked {
+				differ("updated-set@relinked-in-pass")
+			} else if only {
+				differ("updated-set@node-dropped-while-stale")
+			} else {
+				differ("the set of nodes reported as updated")
+			}
+			findings[len(findings)-1].What += fmt.Sprintf(" (reported updated: parallel %v, serial %v)", u1, u2)
 		}
 		if len(s.Heap) != len(ref.Heap) {
 			differ("the number of queued nodes")
 		}
 		if len(findings) > 0 {
+			break
+		}
+		if s.Next != ref.Next {
+			// the two runs have created different numbers of nodes (serially a bind queued ahead of
+			// the bind that drops it still builds a right-hand side, in parallel the dropping bind
+			// may go first): later operations name nodes by creation index, so from here on the
+			// two histories are no longer the same program
 			break
 		}
 	}
